@@ -423,52 +423,75 @@ func (c *Chain) NextBlock(o BlockOpts) (br BlockResult) {
 		// honest validators reject: no block at this height; time does not advance either
 		return br
 	}
-	// vote extensions for this height (state = commit of h-1), real handler + real verifier
-	var ext []abci.ExtendedVoteInfo
+	// vote extensions for this height (state = commit of h-1), real handler + real verifier.
+	// CometBFT only decides a block with precommits (whose extensions the other validators verified) from more than
+	// 2/3 of the voting power: a hostile/absent validator is only possible while the rest still exceeds 2/3 —
+	// otherwise the height could not have been decided and the validator falls back to its honest extension.
+	var totalPower int64
 	for _, addr := range setAddrs {
-		v := c.valByCons(addr)
-		power := c.curSet[addr]
-		if v == nil {
-			continue
-		}
-		vi := abci.ExtendedVoteInfo{Validator: abci.Validator{Address: v.ConsAddr, Power: power}, BlockIdFlag: cmtproto.BlockIDFlagCommit}
-		if o.Absent != nil && o.Absent[v.Acct.Name] {
-			vi.BlockIdFlag = cmtproto.BlockIDFlagAbsent
-			ext = append(ext, vi)
-			continue
-		}
-		bz, err := c.honestExtension(v, h, t)
-		if err != nil {
-			bz = []byte("{}")
-		}
-		if o.Override != nil {
-			bz = o.Override(v, bz)
-		}
-		// the other validators verify it with the real handler; a rejected extension's vote is not counted
-		ok := true
-		func() {
-			defer func() {
-				if r := recover(); r != nil {
+		totalPower += c.curSet[addr]
+	}
+	build := func(allowHostile map[string]bool) ([]abci.ExtendedVoteInfo, int64) {
+		var ext []abci.ExtendedVoteInfo
+		var good int64
+		for _, addr := range setAddrs {
+			v := c.valByCons(addr)
+			power := c.curSet[addr]
+			if v == nil {
+				continue
+			}
+			vi := abci.ExtendedVoteInfo{Validator: abci.Validator{Address: v.ConsAddr, Power: power}, BlockIdFlag: cmtproto.BlockIDFlagCommit}
+			hostile := allowHostile[v.Acct.Name]
+			if hostile && o.Absent != nil && o.Absent[v.Acct.Name] {
+				vi.BlockIdFlag = cmtproto.BlockIDFlagAbsent
+				ext = append(ext, vi)
+				continue
+			}
+			bz, err := c.honestExtension(v, h, t)
+			if err != nil {
+				bz = []byte("{}")
+			}
+			if hostile && o.Override != nil {
+				bz = o.Override(v, bz)
+			}
+			ok := true
+			func() {
+				defer func() {
+					if r := recover(); r != nil {
+						ok = false
+						br.Err = fmt.Sprint("panic in VerifyVoteExtension:", r)
+					}
+				}()
+				vr, err := a.VerifyVoteExtension(&abci.RequestVerifyVoteExtension{Height: h, ValidatorAddress: v.ConsAddr, VoteExtension: bz})
+				if err != nil || vr.Status != abci.ResponseVerifyVoteExtension_ACCEPT {
 					ok = false
-					br.Err = fmt.Sprint("panic in VerifyVoteExtension:", r)
 				}
 			}()
-			vr, err := a.VerifyVoteExtension(&abci.RequestVerifyVoteExtension{Height: h, ValidatorAddress: v.ConsAddr, VoteExtension: bz})
-			if err != nil || vr.Status != abci.ResponseVerifyVoteExtension_ACCEPT {
-				ok = false
+			if !ok {
+				vi.BlockIdFlag = cmtproto.BlockIDFlagAbsent
+				ext = append(ext, vi)
+				continue
 			}
-		}()
-		if !ok {
-			vi.BlockIdFlag = cmtproto.BlockIDFlagAbsent
+			sig, err := signExtension(v, bz, h, 0)
+			if err == nil {
+				vi.VoteExtension = bz
+				vi.ExtensionSignature = sig
+				good += power
+			}
 			ext = append(ext, vi)
-			continue
 		}
-		sig, err := signExtension(v, bz, h, 0)
-		if err == nil {
-			vi.VoteExtension = bz
-			vi.ExtensionSignature = sig
+		return ext, good
+	}
+	hostileSet := map[string]bool{}
+	for _, addr := range setAddrs {
+		if v := c.valByCons(addr); v != nil {
+			hostileSet[v.Acct.Name] = true
 		}
-		ext = append(ext, vi)
+	}
+	ext, good := build(hostileSet)
+	if 3*good <= 2*totalPower {
+		// not a decidable height with these hostile validators: they behave honestly instead
+		ext, _ = build(map[string]bool{})
 	}
 	func() {
 		defer func() {
